@@ -39,7 +39,7 @@ IO = 'chainables.io'
 
 
 def run(ctx: Ctx):
-  for r in (r1, r2, r3, r4, r6, r8, r9, r10):
+  for r in (r1, r2, r3, r4, r6, r8, r9, r10, r11):
     ctx.guard(r)
   from mlmverif.props import c02
   ctx.include('R-C10-7', 'a restored pipeline continues with the WHOLE checkpointed'
@@ -403,6 +403,62 @@ def r10(ctx: Ctx):
   ctx.floor(rule, 2, n)
 
 
+def r11(ctx: Ctx):
+  rule = 'R-C10-11'
+  ctx.rule(rule, 'the recorded position counts every index the reader has left behind,'
+           ' also one it RAISED for: the random-access reader is continuable — it steps'
+           ' over a record it cannot read before re-raising (R-C12-4: `self.i` advanced'
+           ' before the raise) — so in SequenceIterator.__next__ every exceptional'
+           ' continuation of the draw `next(self._it)` other than StopIteration passes'
+           ' an increment of `self._index` before the exception leaves. Otherwise a'
+           ' pipeline that skips failing inputs keeps reading behind the failure with'
+           ' a position that is one short, and a later checkpoint re-delivers an'
+           ' element')
+  repo = ctx.repo
+  # the reader's side of the agreement
+  rd = repo.func(IU, '_RangeIterator.__next__')
+  g0 = cfgm.cfg_of(rd.node)
+  hs = [h for h in g0.nodes if h.kind == 'handler']
+  rer = [n_ for h in hs for n_ in g0.reachable([h], edge_ok=cfgm.only_normal)
+         if isinstance(n_.ast, ast.Raise) and n_.ast.exc is None]
+  inc0 = lambda n_: isinstance(n_.ast, ast.AugAssign) and is_self_attr(n_.ast.target, 'i') and isinstance(n_.ast.op, ast.Add)
+  continuable = bool(rer) and all(g0.must_pass(h, [r_], inc0, cfgm.only_normal) is None for h in hs for r_ in rer)
+  fi = repo.func(IO, 'SequenceIterator.__next__')
+  g = cfgm.cfg_of(fi.node)
+  draws = [nd for nd in g.nodes if nd.kind in ('stmt', 'cond') and any(
+      isinstance(x, ast.Call) and unparse(x.func) == 'next' and x.args and is_self_attr(x.args[0])
+      for x in cfgm.node_exprs(nd))]
+  if not draws:
+    raise AnalysisError(f'{rule}: SequenceIterator.__next__ no longer draws with next(self.<it>)')
+  if not continuable:
+    ctx.info(rule, fi, 'the reader does not step over a failing record: nothing to count')
+    ctx.floor(rule, 0)
+    return
+  inc = lambda nd: isinstance(nd.ast, ast.AugAssign) and is_self_attr(nd.ast.target, '_index') and isinstance(nd.ast.op, ast.Add)
+  explicit = lambda a, b, lab: lab != 'close' and (lab != 'exc' or isinstance(a.ast, ast.Raise))
+  for nd in draws:
+    why = None
+    for h, lab in nd.succ:
+      if lab != 'exc':
+        continue
+      if h is g.exit_exc:
+        why = 'no handler covers the draw'
+        continue
+      if h.exc_types and set(h.exc_types) <= {'StopIteration'}:
+        continue
+      if g.must_pass(h, [g.exit_exc], inc, explicit) is not None:
+        why = f'the handler `{h.text()}` re-raises without counting the record'
+    if why:
+      ctx.fail(rule, fi, 'SequenceIterator.__next__: a record the reader raised for is counted by the position',
+               f'`{nd.text()[:50]}` can raise for an unreadable record and {why}: the reader has already'
+               ' stepped over that record (R-C12-4), iteration can continue behind it, but self._index is'
+               ' one short from then on — a checkpoint taken later restores one element too early and'
+               ' that element is delivered twice', node=nd.ast)
+    else:
+      ctx.ok(rule, fi, 'a raised record is counted before the exception leaves __next__', nd.ast)
+  ctx.floor(rule, 1)
+
+
 def r3(ctx: Ctx):
   rule = 'R-C10-3'
   ctx.rule(rule, 'structure: MultiplexIterator.from_state zips data sources'
@@ -658,6 +714,12 @@ _F = 'chainables/io.py'
 _T = 'chainables/transform.py'
 _U = 'utils/iter_utils.py'
 VARIANTS = [
+    B('revert-raised-record-counted', _F,
+      '    except Exception:\n      # The reader steps over a record it cannot read before raising, the\n      # iteration can continue behind it: the record still occupies an index.\n      self._index += 1\n      raise',
+      '    except Exception:\n      raise', 'R-C10-11'),
+    OK('raised-record-counted-in-finally-style', _F,
+       '    except Exception:\n      # The reader steps over a record it cannot read before raising, the\n      # iteration can continue behind it: the record still occupies an index.\n      self._index += 1\n      raise',
+       '    except Exception as read_error:\n      self._index += 1\n      raise read_error'),
     B('dataiter-state-rounded-to-stride', _F,
       '    start_index = max(self._index, self.config.state.start_index)\n    return dc.replace(self.config.state, start_index=start_index)',
       '    start_index = max(self._index, self.config.state.start_index)\n    start_index += (start_index - self.config.state.shard_index) % self.config.state.num_shards\n    return dc.replace(self.config.state, start_index=start_index)',
@@ -685,14 +747,14 @@ VARIANTS = [
       '      self._it = iter_utils.iter_ignore_error(self._it, error_return=_SKIPPED)',
       '      self._it = iter_utils.iter_ignore_error(self._it)', 'R-C10-6'),
     B('skip-marker-not-counted', _F,
-      '    while (result := next(self._it)) is _SKIPPED:\n      self._index += 1\n    self._index += 1',
-      '    result = next(self._it)\n    self._index += 1', 'R-C10-6'),
+      '      while (result := next(self._it)) is _SKIPPED:\n        self._index += 1\n',
+      '      result = next(self._it)\n', 'R-C10-6'),
     B('skip-marker-dropped-without-counting', _F,
-      '    while (result := next(self._it)) is _SKIPPED:\n      self._index += 1\n    self._index += 1',
-      '    while (result := next(self._it)) is _SKIPPED:\n      pass\n    self._index += 1', 'R-C10-5'),
+      '      while (result := next(self._it)) is _SKIPPED:\n        self._index += 1\n',
+      '      while (result := next(self._it)) is _SKIPPED:\n        pass\n', 'R-C10-5'),
     OK('skip-marker-explicit-loop', _F,
-       '    while (result := next(self._it)) is _SKIPPED:\n      self._index += 1\n    self._index += 1',
-       '    result = next(self._it)\n    self._index += 1\n    while result is _SKIPPED:\n      result = next(self._it)\n      self._index += 1'),
+       '      while (result := next(self._it)) is _SKIPPED:\n        self._index += 1\n',
+       '      result = next(self._it)\n      while result is _SKIPPED:\n        self._index += 1\n        result = next(self._it)\n'),
     B('state-relative-only', _F,
       '    start_index = self._index - self.config.start + self.config.state.start_index',
       '    start_index = self._index - self.config.start', 'R-C10-1'),
